@@ -16,6 +16,7 @@ proof blocks.  No executable token of the extracted code is edited.
   @iter <k> <name>     name the ghost iterator of the k-th (for) loop
   @hint start          proof text at the start of the body
   @hint after|before <k> :: <statement text>   proof text next to the k-th occurrence of the text
+  @vacuity after|before <k> :: <anchor>        extra must-fail probe at that point (vacuity build only)
   @hint loopstart <k>                          proof text as first statement of the k-th loop's body
   @hint beforeloop <k> / afterloop <k>         proof text just before the k-th loop / just after its closing brace
   @closure <k> :: <binder: type> :: <ensures>  contract for the k-th closure
@@ -150,7 +151,7 @@ def parse_vspec(text, fname):
         elif line.startswith('#:'):
             parts = line[2:].split()
             label = (parts[0], [p for p in (parts[1].split(',') if len(parts) > 1 else []) if p])
-        elif line.startswith('@loop ') or line.startswith('@iter ') or line.startswith('@hint ') or line.startswith('@closure ') or line.startswith('@split '):
+        elif line.startswith('@loop ') or line.startswith('@iter ') or line.startswith('@hint ') or line.startswith('@closure ') or line.startswith('@split ') or line.startswith('@vacuity '):
             sub = {'head': line, 'lines': [], 'where': (fname, lineno)}
             cur['subs'].append(sub)
             label = None
@@ -218,6 +219,14 @@ def _mk(lines, fnid, kind, default_props, indent=''):
     return '\n'.join(texts), metas
 
 
+_PROBE_COUNTER = [0]
+
+
+def _probe_no():
+    _PROBE_COUNTER[0] += 1
+    return _PROBE_COUNTER[0]
+
+
 def _weave_sub(sub, e, fnid, src, sig_end, body_close, lps, edits, vacuity, split=None, splits=None):
     head = sub['head']
     lines = [x for x in sub['lines']]
@@ -230,7 +239,7 @@ def _weave_sub(sub, e, fnid, src, sig_end, body_close, lps, edits, vacuity, spli
         text, metas = _mk(lines, fnid, 'invariant', e['props'])
         edits.append(Edit(lps[k - 1][1], '\n' + text + '\n', 5, [None] + metas + [None]))
         if vacuity:
-            edits.append(Edit(lps[k - 1][1] + 1, '\n proof { assert(false); } //@@VACUITY-PROBE %s loop %d\n' % (fnid, k), 6,
+            edits.append(Edit(lps[k - 1][1] + 1, '\n proof { let vp_c: bool = arbitrary::<Seq<bool>>()[%d]; if vp_c { assert(false); } } //@@VACUITY-PROBE %s loop %d\n' % (_probe_no(), fnid, k), 6,
                               [None, {'fn': fnid, 'label': 'vacuity-probe-loop%d' % k, 'props': [], 'kind': 'vacuity', 'where': sub['where'], 'text': ''}, None]))
     elif head.startswith('@iter '):
         _, k, nm = head.split()
@@ -269,6 +278,22 @@ def _weave_sub(sub, e, fnid, src, sig_end, body_close, lps, edits, vacuity, spli
         at = sig_end + 1 + max(inner.rfind(';'), inner.rfind('}')) + 1
         text, metas = _mk(lines, fnid, 'hint', e['props'])
         edits.append(Edit(at, '\n' + text + '\n', 6, [None] + metas + [None]))
+    elif head.startswith('@vacuity '):
+        # @vacuity (after|before) <k> :: <anchor>   an extra must-fail probe (vacuity build only): `assert(false)` at a point
+        # reached only after contracts of assumed functions have been used, so that a contradiction among them is noticed
+        m = re.match(r'@vacuity (after|before) (\d+) :: (.*)$', head)
+        if not m:
+            raise AnchorLost('bad vacuity header %r' % head)
+        if vacuity:
+            where_, k, stmt = m.group(1), int(m.group(2)), m.group(3)
+            pos = sig_end
+            for _ in range(k):
+                pos = src.find(stmt, pos + 1, body_close)
+                if pos < 0:
+                    raise AnchorLost('vacuity anchor %r #%d in %s' % (stmt, k, fnid))
+            at = pos if where_ == 'before' else pos + len(stmt)
+            edits.append(Edit(at, '\n proof { let vp_c: bool = arbitrary::<Seq<bool>>()[%d]; if vp_c { assert(false); } } //@@VACUITY-PROBE %s at %s\n' % (_probe_no(), fnid, stmt[:30]), 8,
+                              [None, {'fn': fnid, 'label': 'vacuity-probe-point[%s %d %s]' % (where_, k, stmt[:40]), 'props': [], 'kind': 'vacuity', 'where': sub['where'], 'text': ''}, None]))
     elif re.match(r'@hint (beforeloop|afterloop) \d+\s*$', head):
         # just before the k-th loop statement / just after its closing brace (structural anchors)
         which, k = head.split()[1], int(head.split()[2])
@@ -438,7 +463,7 @@ def weave(src, vspecs, vacuity=False, split=None, isolate=()):
             isolated.append(fnid)
             continue
         if vacuity and 'external_body' not in (e.get('attr') or ''):
-            edits.append(Edit(sig_end + 1, '\n proof { assert(false); } //@@VACUITY-PROBE %s\n' % fnid, 3,
+            edits.append(Edit(sig_end + 1, '\n proof { let vp_c: bool = arbitrary::<Seq<bool>>()[%d]; if vp_c { assert(false); } } //@@VACUITY-PROBE %s\n' % (_probe_no(), fnid), 3,
                               [None, {'fn': fnid, 'label': 'vacuity-probe', 'props': [], 'kind': 'vacuity', 'where': e['where'], 'text': ''}, None]))
         lps = loops_in(src, sig_end, body_close)
         for sub in e['subs']:
